@@ -21,11 +21,23 @@
 #define MYTH_VERIF_NO_POINTS 1   /* the runtime's own atomics must not be turned into scheduling points */
 #include "myth_verif.h"
 
+/* optional hook audit (audit.c is linked only into audit builds) */
+extern void mv_audit_begin(void) __attribute__((weak));
+extern void mv_audit_end(const char * what) __attribute__((weak));
+extern void mv_audit_forget(void * lo, void * hi) __attribute__((weak));
+extern int mv_audit_pause __attribute__((weak));
+
 extern unsigned long myth_verif_idle_sig(int rank, int * local_nonempty, int * others_nonempty);
+static unsigned long idle_sig(int rank, int * l, int * o) {
+  if (&mv_audit_pause) mv_audit_pause++;
+  unsigned long r = myth_verif_idle_sig(rank, l, o);
+  if (&mv_audit_pause) mv_audit_pause--;
+  return r;
+}
 extern int g_myth_verif_sig_skip_own;
 static unsigned long sig_others(int v, int * oth) {
   int loc; g_myth_verif_sig_skip_own = 1;
-  unsigned long s = myth_verif_idle_sig(v, &loc, oth);
+  unsigned long s = idle_sig(v, &loc, oth);
   g_myth_verif_sig_skip_own = 0;
   return s;
 }
@@ -131,16 +143,23 @@ static uint64_t readval(const volatile void * a, size_t sz) {
   return v;
 }
 
+static int enabled_(int v);
 static int enabled(int v) {
+  if (&mv_audit_pause) mv_audit_pause++;
+  int r = enabled_(v);
+  if (&mv_audit_pause) mv_audit_pause--;
+  return r;
+}
+static int enabled_(int v) {
   switch (S.st[v]) {
   case ST_RUN: case ST_READY: return 1;
   case ST_SPIN: return readval(S.waddr[v], S.wsz[v]) != S.wsnap[v];
   case ST_IDLE: {
-    int loc, oth; unsigned long s = myth_verif_idle_sig(v, &loc, &oth);
+    int loc, oth; unsigned long s = idle_sig(v, &loc, &oth);
     return s != S.sigsnap[v] || oth || loc;
   }
   case ST_YSPIN: {
-    int loc, oth; unsigned long s = myth_verif_idle_sig(v, &loc, &oth);
+    int loc, oth; unsigned long s = idle_sig(v, &loc, &oth);
     return readval(S.waddr[v], S.wsz[v]) != S.wsnap[v] || s != S.sigsnap[v] || oth || loc;
   }
   case ST_YMULTI: return 1;   /* runnable, but every thread it holds seems to wait: lowest priority */
@@ -276,7 +295,7 @@ void mythv_yspin(int id, const volatile void * addr, size_t sz) {
   if (!in_control()) return;
   check_owner("yspin");
   int w = tl_w, loc, oth;
-  unsigned long s = myth_verif_idle_sig(w, &loc, &oth);
+  unsigned long s = idle_sig(w, &loc, &oth);
   if (loc && !oth) {
     /* other threads of this worker are runnable: yielding to them is progress, unless they
        all turn out to wait in yield loops as well (the same word comes round unchanged) */
@@ -313,7 +332,7 @@ void mythv_idle(int id, int rank) {
   check_owner("idle");
   int w = tl_w, loc, oth;
   (void)rank;
-  S.sigsnap[w] = myth_verif_idle_sig(w, &loc, &oth);
+  S.sigsnap[w] = idle_sig(w, &loc, &oth);
   S.st[w] = ST_IDLE;
   /* work visible somewhere: stay enabled (the next attempt may pick that victim) */
   decide(w, id);
@@ -452,9 +471,11 @@ void mythv_free(int kind, void * p, size_t sz, int rank) {
     }
     /* poison: any later legitimate-looking use of the released stack fails deterministically */
     memset(lo, 0xDB, (char *)p - lo);
+    if (mv_audit_forget) mv_audit_forget(lo, hi);
   } else {
     extern void mythv_poison_desc(void * th);
     mythv_poison_desc(p);
+    if (mv_audit_forget) mv_audit_forget(p, (char *)p + sz);
   }
   e->state = LG_FREE; e->rank = rank; lg_out[kind]--;
 }
@@ -498,9 +519,10 @@ void mv_start(int nworkers) {
   for (int v = 0; v < nworkers; v++) {
     int loc, oth;
     if (v == tl_w) { S.st[v] = ST_RUN; continue; }
-    S.st[v] = ST_IDLE; S.sigsnap[v] = myth_verif_idle_sig(v, &loc, &oth);
+    S.st[v] = ST_IDLE; S.sigsnap[v] = idle_sig(v, &loc, &oth);
   }
   S.cur = tl_w; S.hash = 0x1234; S.now_ns = 0;
+  if (mv_audit_begin) mv_audit_begin();
   __atomic_store_n(&S.mode, MODE_CTL, __ATOMIC_RELEASE);
 }
 
@@ -508,5 +530,6 @@ void mv_finish(void) {
   if (S.mode != MODE_CTL) return;
   check_owner("finish");
   mv_sh->trace_hash = S.hash;
+  if (mv_audit_end) mv_audit_end(mv_sh->obs);
   leave_control();
 }
